@@ -6,6 +6,11 @@
            or OUTOFMODEL when a `u` item (nested single-select union) does not itself print as a
            tree in the model (then it cannot be handed on as an already rendered sub-tree).
 
+   Kinds N / X / C (union nested in INSERT / EXPLAIN / CREATE VIEW): the model side prints the
+   union with the tail the enclosing statement passes (explain_insert_select,
+   explain_explain_select with the extracted explain_query_tail, explain_as_select_without_format)
+   at depth 0; the Go side extracts and de-indents the nested subtree.
+
    Glue that is NOT extracted (trusted, small): decoding a case into the model's record, the
    sub-trees standing for the identifiers / table elements / ORDER BY elements the Go side
    builds, the flattening of a nested single-select union in u_grouped (expandNestedUnions'
@@ -103,7 +108,7 @@ let nested_union q =
     u_settings_after_format = false; u_settings_before_format = false }
 
 let nested_tree q =
-  match parse_lines (explain_select_with_union_query_format O (nested_union q) true) with
+  match parse_lines (explain_select_with_union_query O (nested_union q)) with
   | Some t -> t
   | None -> raise Out_of_model
 
@@ -117,17 +122,28 @@ let item s =
     (ItemOther { o_tree = nested_tree q; o_with = q.sq_with; o_is_union = true }, ItemSelect q)
   | _ -> failwith ("bad item kind in " ^ s)
 
+let union arg items =
+  if String.length arg <> 3 then failwith "union arg must be 3 digits";
+  let its = List.map item (String.split_on_char ';' items) in
+  { u_selects = List.map fst its; u_grouped = List.map snd its;
+    u_settings = nat_of_int (Char.code arg.[2] - 48);
+    u_settings_after_format = arg.[1] <> '0';
+    u_settings_before_format = arg.[0] <> '0' }
+
 let lines_of_case kind arg items =
   match kind with
   | "S" -> explain_select_query O (build items)
-  | "U" ->
-    if String.length arg <> 3 then failwith "U arg must be 3 digits";
-    let its = List.map item (String.split_on_char ';' items) in
-    let u = { u_selects = List.map fst its; u_grouped = List.map snd its;
-              u_settings = nat_of_int (Char.code arg.[2] - 48);
-              u_settings_after_format = arg.[1] <> '0';
-              u_settings_before_format = arg.[0] <> '0' } in
-    explain_select_with_union_query_format O u true
+  | "U" -> explain_select_with_union_query O (union arg items)
+  | "N" ->
+    if String.length arg <> 4 then failwith "N arg must be 4 digits";
+    explain_insert_select O (idents "iw" (Char.code arg.[0] - 48))
+      (union (String.sub arg 1 3) items)
+  | "X" -> explain_explain_select O (union arg items)
+  | "C" ->
+    if String.length arg <> 4 then failwith "C arg must be 4 digits";
+    let u = union (String.sub arg 1 3) items in
+    if arg.[0] <> '0' then explain_as_select_without_format O u
+    else explain_select_with_union_query O u
   | "I" ->
     let its = List.map item (String.split_on_char ';' items) in
     explain_select_intersect_except_query O
